@@ -16,8 +16,9 @@ Record wcase := mkWC {
   wc_committed : bool;       (* implementation: Commit returned nil *)
   wc_merges : nat;           (* implementation: refetch-and-merge rounds *)
   wc_after : list nat;       (* writers whose Commit had returned when this one began *)
-  wc_lockfail : bool         (* implementation: the first refetch round was entered through a failed node-key Lock,
-                                i.e. without the rollback that releases the item lock records *)
+  wc_lockfail : bool         (* implementation (read off the trace): some refetch round started while the lock records
+                                of the writer's previous lockTrackedItems were still in the cache, i.e. it was entered
+                                through a failed node-key Lock/DualLock and not through the rollback that deletes them *)
 }.
 
 (* phase1Commit re-runs lockTrackedItems after a refetch; the replay gave the get/update/remove entries a
